@@ -271,7 +271,7 @@ func confirm(fs []*failure) (confirmed []*failure, unreproduced []*failure) {
 	var order []string
 	for _, f := range fs {
 		if f.Kind == "hang" {
-			_, hung := callTimed(f.Comp, f.In.Bytes, 60*time.Second)
+			_, hung := callTimed(f.Comp, f.In.Bytes, 240*time.Second)
 			if !hung {
 				unreproduced = append(unreproduced, f)
 				continue
